@@ -332,6 +332,24 @@ func runSchedule(c *vf.Ctx, id int, rng *rand.Rand) {
 						}
 					}
 				}
+				if rs.LockedBlock != nil {
+					pc += fmt.Sprintf(" LOCK r%d %X", rs.LockedRound, rs.LockedBlock.Hash()[:4])
+				}
+				if rs.ValidBlock != nil {
+					pc += fmt.Sprintf(" VALID r%d %X", rs.ValidRound, rs.ValidBlock.Hash()[:4])
+				}
+				if rs.Proposal != nil {
+					pc += fmt.Sprintf(" PROP pol=%d %X", rs.Proposal.POLRound, rs.Proposal.BlockID.Hash[:4])
+				}
+				if rs.Votes != nil {
+					if x := rs.Votes.Prevotes(r); x != nil {
+						for vi := 0; vi < x.Size(); vi++ {
+							if v := x.GetByIndex(vi); v != nil {
+								pc += fmt.Sprintf(" pv%d:%X", vi, v.BlockID.Hash[:min(4, len(v.BlockID.Hash))])
+							}
+						}
+					}
+				}
 				th, tr, ts, tok := nd.CS.VerifTickerPending()
 				fmt.Printf("sync round %d node %d store=%d hrs=%d/%d/%v prop=%v locked=%v timeout=%v(%d/%d/%v) prevotes[%s] precommits[%s]\n", rounds, nd.Index, nd.BS.Height(), h, r, st, rs.Proposal != nil, rs.LockedBlock != nil, tok, th, tr, ts, pv, pc)
 			}
@@ -368,6 +386,24 @@ func runSchedule(c *vf.Ctx, id int, rng *rand.Rand) {
 					if bid, ok := pcs.TwoThirdsMajority(); ok && len(bid.Hash) != 0 {
 						key = "no-bounded-progress:decided-node-left-commit-step"
 						why = fmt.Sprintf("; node %d is at %d/%d/%v although it holds +2/3 precommits of round %d for block %X", nd.Index, rs.Height, rs.Round, rs.Step, r, bid.Hash)
+					}
+				}
+			}
+		}
+		if key == "no-bounded-progress" {
+			// second diagnosis: an honest node still locked on a block of round L although its own vote
+			// sets hold +2/3 prevotes for another block at a round P with L < P <= its round
+			for _, nd := range honest {
+				rs := nd.CS.GetRoundState()
+				if rs.Votes == nil || rs.LockedBlock == nil {
+					continue
+				}
+				for r := rs.LockedRound + 1; r <= rs.Round; r++ {
+					if pvs := rs.Votes.Prevotes(r); pvs != nil {
+						if bid, ok := pvs.TwoThirdsMajority(); ok && len(bid.Hash) != 0 && !rs.LockedBlock.HashesTo(bid.Hash) {
+							key = "no-bounded-progress:lock-kept-despite-later-polka"
+							why = fmt.Sprintf("; node %d at %d/%d is locked on %X since round %d although it holds +2/3 prevotes of round %d for block %X", nd.Index, rs.Height, rs.Round, rs.LockedBlock.Hash()[:4], rs.LockedRound, r, bid.Hash[:4])
+						}
 					}
 				}
 			}
